@@ -43,6 +43,7 @@ PINS = [
     'mesonbuild.utils.universal:_dump_c_header',
     'mesonbuild.utils.universal:dump_conf_header',
     'mesonbuild.utils.universal:replace_if_different',
+    'mesonbuild.utils.universal:do_conf_file',
     'mesonbuild.options:OptionKey.__lt__',
     'mesonbuild.options:OptionKey.__str__',
     'mesonbuild.options:OptionKey._to_tuple',
@@ -272,8 +273,13 @@ def gen_cases(ctx: Ctx, mult: int = 1, only: T.Optional[T.Set[str]] = None) -> T
         group('depfile', variants)
     # writers on a real directory
     for _ in range(n(120, 1500)):
-        ops = [[rng.choice('wrrrxx'), rng.randint(0, 3), rng.randint(0, 2)] for _ in range(rng.randint(1, 9))]
-        group('fs', [{'ops': ops, 'fam_b': rng.sample([0, 1, 2, 3], rng.randint(0, 2)), 'via_header': rng.random() < 0.5}])
+        fam_b = rng.sample([0, 1, 2, 3], rng.randint(0, 2))
+        ops = []
+        for _o in range(rng.randint(1, 9)):
+            i = rng.randint(0, 3)
+            k = rng.choice('wrrxxttt' if i not in fam_b else 'wrrxx')
+            ops.append([k, i, rng.randint(0, 2)] + ([rng.randint(0, 3)] if k == 't' else []))
+        group('fs', [{'ops': ops, 'fam_b': fam_b, 'via_header': rng.random() < 0.5}])
     return cases
 
 
@@ -377,6 +383,18 @@ def fs_oracle(o: dict) -> T.Optional[T.Tuple[str, str]]:
         return ('replace_if_different:touched-unchanged', 'replace_if_different touched a file whose content is unchanged')
     if o['op'] == 'r' and o['before'].get(p) != c and p not in o['touched']:
         return ('replace_if_different:stale', 'replace_if_different did not install different content')
+    if o['op'] == 't':
+        unchanged = o['before'].get(p) == c
+        if unchanged and p in o['touched']:
+            return ('do_conf_file:touched-unchanged', 'do_conf_file rewrote an output whose content is unchanged '
+                    f'(template mode {oct(o["tmode"])}, output mode {oct(o["mode_before"].get(p, 0))})')
+        if unchanged and o['mode_after'].get(p) != o['mode_before'].get(p):
+            return ('do_conf_file:mode-changed', 'do_conf_file changed the mode of an unchanged output')
+        if not unchanged and (p not in o['touched'] or o['mode_after'].get(p) != o['tmode']):
+            return ('do_conf_file:stale', 'do_conf_file did not install new content with the template mode')
+    for q in o['mode_before']:
+        if q != p and o['mode_after'].get(q) != o['mode_before'][q]:
+            return ('mode-other', f'{o["op"]} on {p} changed the mode of {q}')
     return None
 
 
@@ -476,15 +494,15 @@ def fixed_steps(rng, deep: bool, history: str) -> T.List[dict]:
     changed back through `meson configure`, 'wipe', or 'none')"""
     r = lambda: rng.randint(2, 10**6)  # noqa: E731
     steps = [
-        dict(kind='fresh', hashseed=0, envseed=0, treeseed=0, listseed='none'),
-        dict(kind='fresh', hashseed=1, envseed=1, treeseed=1, listseed=1),
-        dict(kind='fresh', hashseed=2, envseed=r(), treeseed=r(), listseed=r()),
-        dict(kind='fresh', hashseed=rng.randint(3, 2**32 - 1), envseed=r(), treeseed=r(), listseed=r()),
+        dict(kind='fresh', hashseed=0, envseed=0, treeseed=0, listseed='none', metaseed=0),
+        dict(kind='fresh', hashseed=1, envseed=1, treeseed=1, listseed=1, metaseed=1),
+        dict(kind='fresh', hashseed=2, envseed=r(), treeseed=r(), listseed=r(), metaseed=r()),
+        dict(kind='fresh', hashseed=rng.randint(3, 2**32 - 1), envseed=r(), treeseed=r(), listseed=r(), metaseed=r()),
         dict(kind='reconf', hashseed=rng.randint(0, 2**32 - 1), envseed=r(), treeseed=0, listseed=r()),
     ]
     if deep:
         for _ in range(4):
-            steps.insert(4, dict(kind='fresh', hashseed=rng.randint(0, 2**32 - 1), envseed=r(), treeseed=r(), listseed=r()))
+            steps.insert(4, dict(kind='fresh', hashseed=rng.randint(0, 2**32 - 1), envseed=r(), treeseed=r(), listseed=r(), metaseed=r()))
         steps.append(dict(kind='reconf', hashseed=rng.randint(0, 2**32 - 1), envseed=r(), treeseed=0, listseed=r()))
     if deep or history == 'roundtrip':
         steps.append(dict(kind='roundtrip', hashseed=rng.randint(0, 2**32 - 1), envseed=r(), treeseed=0, listseed=r()))
@@ -496,9 +514,9 @@ def fixed_steps(rng, deep: bool, history: str) -> T.List[dict]:
 def gen_steps(rng) -> T.List[dict]:
     r = lambda: rng.randint(2, 10**6)  # noqa: E731
     return [
-        dict(kind='fresh', hashseed=0, envseed=0, treeseed=0, listseed='none'),
-        dict(kind='fresh', hashseed=rng.randint(1, 2**32 - 1), envseed=r(), treeseed=r(), listseed=r()),
-        dict(kind='fresh', hashseed=rng.randint(1, 2**32 - 1), envseed=1, treeseed=1, listseed=r()),
+        dict(kind='fresh', hashseed=0, envseed=0, treeseed=0, listseed='none', metaseed=0),
+        dict(kind='fresh', hashseed=rng.randint(1, 2**32 - 1), envseed=r(), treeseed=r(), listseed=r(), metaseed=r()),
+        dict(kind='fresh', hashseed=rng.randint(1, 2**32 - 1), envseed=1, treeseed=1, listseed=r(), metaseed=r()),
         dict(kind='reconf', hashseed=rng.randint(1, 2**32 - 1), envseed=r(), treeseed=0, listseed=r()),
     ]
 
@@ -555,6 +573,11 @@ def check_project(ctx: Ctx, pname: str, recs: T.List[dict], replay_extra: dict, 
                     continue
                 if a['data'] == b['data']:
                     ctx.count()
+                    if a['mode'] != b['mode']:
+                        ctx.violation(f'mode:{cls}', f'{pname}: {rel} changes its permission bits ({oct(a["mode"])} -> {oct(b["mode"])}) '
+                                      'over a no-change reconfigure', case(j, j, rel))
+                    if a['mode'] != 0o644:
+                        ctx.tag('mtime-checked-nondefault-mode:' + cls)
                     if a['mtime'] != b['mtime']:
                         ctx.tag('mtime-changed:' + cls)
                         key = f'mtime:{cls}:{pname}/{rel}' if cls == 'configure-output' else f'mtime:{cls}'
@@ -655,7 +678,7 @@ def run(ctx: Ctx) -> None:
         inproc_layer(ctx, cases, hash_seeds(ctx))
         finish()
     finally:
-        common.rmtree(root0)
+        S.force_rmtree(root0)
     ctx.assumptions += TRUSTED
     ctx.extra['explanation'] = (
         'Lean proves, for every input, that the modelled emitters (sorted deps/orderdeps of NinjaBuildElement.write, '
@@ -701,6 +724,6 @@ def replay(ctx: Ctx, rep: dict) -> None:
                 uo = user_command_outputs(project_texts(os.path.join(S.PROJECTS, case['project'])))
             check_project(ctx, case['project'], recs, {'files': case['files']} if 'files' in case else {}, uo)
         finally:
-            common.rmtree(root0)
+            S.force_rmtree(root0)
     else:
         raise common.ToolFailure('unknown replay record')
